@@ -74,10 +74,17 @@ class Sim:
         self.at_return = None
 
         def loop() -> None:
-            self.runner.run()
-            # the state at the instant run() returns (task threads that were not joined may still be
-            # executing: in a real process they die with it)
-            self.at_return = {"records": {i: self.record(i) for i in self.all_ids()}, "queue": self.queue()}
+            def snapshot() -> None:
+                # the state at the instant run() returns or raises (task threads that were not joined may still be
+                # executing: in a real process they die with it)
+                self.at_return = {"records": {i: self.record(i) for i in self.all_ids()}, "queue": self.queue()}
+
+            try:
+                self.runner.run()
+            except Exception:  # (not the scheduler's Abort, a BaseException: an aborted run() never returned)
+                snapshot()
+                raise
+            snapshot()
 
         try:
             ex = s.run([("loop", loop), ("client", client), *(extra or [])])
